@@ -366,6 +366,9 @@ func (p *pkg) extractRender(rec string) renderFact {
 }
 
 func joinCond(a, b string) string {
+	if strings.Contains(b, "||") {
+		b = "(" + b + ")"
+	}
 	if a == "" {
 		return b
 	}
